@@ -597,3 +597,6 @@ SPECS['C06']['obligations'] = SPECS['C06']['obligations'] + _enthist
 # reference resolves to the object the user passed, also after it was renamed / moved to another origin)
 for _p in ('C06', 'C07'):
     SPECS[_p]['obligations'] = SPECS[_p]['obligations'] + _rename
+# C17: "uniformly spaced indexed frames" in the mode - the frame set-up obligations of C13 decide it (value-level numpy stub)
+SPECS['C17']['obligations'] = SPECS['C17']['obligations'] + _find('C13', 'ob_params') + _find('C13', 'reach_params')
+SPECS['C17']['outside'] = [o for o in SPECS['C17']['outside'] if not o.startswith('signed-integer channel data')]
